@@ -3,7 +3,7 @@
 (* every line of the NDJSON file named by CASES is one case (input bytes plus   *)
 (* the library's verdict / output, recorded by harness/c/wirecase.c); TLC        *)
 (* evaluates the specification's operator on the input and compares.            *)
-EXTENDS Wire, MatchOps, ObjectTreeOps, PendingCallOps, Json, IOUtils, TLC
+EXTENDS Wire, MatchOps, ObjectTreeOps, PendingCallOps, AuthOps, Json, IOUtils, TLC
 
 Log == ndJsonDeserialize(IOEnv.CASES)
 VARIABLE x
@@ -124,7 +124,11 @@ OTreeOK(c) == OReplay(c.cmds, 1, <<>>)
 \* ---- pending-call histories (C17) ----
 PCallOK(c) == PReplay(c.cmds, 1, PInit, DevSet)
 
-CaseOK(c) == CASE c.k = "otree" -> OTreeOK(c) [] c.k = "pcall" -> PCallOK(c) [] c.k = "build" -> BuildOK(c) [] c.k = "edit" -> EditOK(c) [] c.k = "syn" -> SynOK(c) [] c.k = "dem" -> DemOK(c) [] c.k = "chunk" -> ChunkOK(c)
+\* ---- SASL conversations with a real server (C08) ----
+AuthOK(c) == AReplay([allowed |-> SetOfSeq(c.allowed), sockUid |-> c.sockUid, serverUid |-> c.serverUid, sockCanReadKeyring |-> TRUE],
+                     c.cmds, 1, AInit)
+
+CaseOK(c) == CASE c.k = "auth" -> AuthOK(c) [] c.k = "otree" -> OTreeOK(c) [] c.k = "pcall" -> PCallOK(c) [] c.k = "build" -> BuildOK(c) [] c.k = "edit" -> EditOK(c) [] c.k = "syn" -> SynOK(c) [] c.k = "dem" -> DemOK(c) [] c.k = "chunk" -> ChunkOK(c)
 BadCases == {i \in 1..Len(Log) : ~CaseOK(Log[i])}
 \* evaluated in Next (worker thread: honours -Xss), not in Init (main thread)
 Init == x = 0
